@@ -2,7 +2,7 @@
 from __future__ import annotations
 
 from . import gen
-from .common import Batch, Result, canon_json, conv_tree, err_class, load_corpus, raw_parse, render_doc, rng_for
+from .common import Batch, Result, canon_json, conv_tree, err_class, load_corpus, raw_parse, render_doc, rng_for, parse_with
 from .decsnap import impl_tables, model_tables
 
 
@@ -110,7 +110,7 @@ def run(ctx):
             case = {"kind": "cdecay", "label": label, "text": text, "include_ccdecays": cc}
             try:
                 p = DecFileParser.from_string(text)
-                p.parse(include_ccdecays=cc)
+                case["call"] = parse_with(p, cc)
                 impl = impl_tables(p)
                 err = None
             except Exception as e:
@@ -120,7 +120,7 @@ def run(ctx):
                 # parse like any other
                 try:
                     p2 = DecFileParser.from_string(text)
-                    p2.parse(include_ccdecays=False)
+                    parse_with(p2, False)
                     p2.parse()
                     again = impl_tables(p2)
                 except Exception as e:
